@@ -1,8 +1,214 @@
-/- placeholder: executable model to be written (see tools/BUILDER_BRIEF.md) -/
+/-
+Model of `asetypes/decimal.go` (C16): `NewDecimal`/`sanity`, `String`, `SetString`, `Cmp`,
+as the code is after commit "fix: Decimal.SetString rejects input it cannot represent, sanity
+rejects negative scale".  Text is `List Char` (= Go runes of a *valid* UTF-8 string; the line
+protocol answers `bad-op` on invalid UTF-8 and the harness never sends it).
+
+Go standard-library behaviour that is *re-stated here by hand* (trusted base, tied to the real
+functions only by the correspondence harness `go/cmd/harness/c16.go`):
+
+* `strings.TrimSpace`   — `trimSpace`: removes leading and trailing runes with `unicode.IsSpace`,
+                          i.e. U+0009–U+000D, U+0020, U+0085, U+00A0, U+1680, U+2000–U+200A,
+                          U+2028, U+2029, U+202F, U+205F, U+3000 (`isSpace`).
+* `strings.Split(s,".")`— `splitOn '.'`: n separators give n+1 pieces, never the empty list.
+* `strings.Trim(right,"0123456789") != ""` — `right.any (!isDig ·)` (some rune is not an ASCII digit).
+* `len(right)`          — Go counts bytes; the model counts runes.  The two agree because the
+                          comparison is only reached when `right` consists of ASCII digits.
+* `big.Int.SetString(t,10)` — `bigIntSetString`: optional single leading `+` or `-`, then at least
+                          one ASCII digit, nothing else (no `_`, no spaces, no prefix); `-0` is 0.
+* `fmt.Sprintf("%0Ns", *big.Int)` — `zeroPad N (natDigits |i|)`: `big.Int.Format` pads the decimal
+                          digits on the left with `0` up to width N (N = 0: "%00s", no width).
+* `big.nat.utoa(10)`    — `natDigits`: decimal digits, most significant first, `"0"` for 0.
+* `strings.TrimLeft/TrimRight(x,"0")` — `trimLeft0`/`trimRight0`.
+* string slicing `s[a:]`, `s[:a]` with `0 ≤ a ≤ len s` — `List.drop`/`List.take`; a negative bound
+                          (only when Scale > Precision, impossible after `sanity`) is Go's
+                          run-time panic — `format` answers `none`.
+
+Line protocol (`run`):
+  dec new p s            -> ok | err
+  dec fmt p s i          -> err-new | ok <hex of String()> | panic
+  dec fmtraw p s i       -> (p,s ≥ 0, fields set directly, no sanity)  ok <hex> | panic
+  dec parse p s <hex>    -> err-new | ok <unscaled int> | err
+  dec rt p s i           -> err-new | ok <int>  (parse(String()) succeeded, Cmp = true)
+                                   | ne <int>  (parsed, Cmp = false) | err
+-/
 import Dblib.Util
 
 namespace Dblib.Decimal
 
-def run (_args : List String) : String := "todo"
+abbrev Text := List Char
+
+/-! ### characters -/
+
+/-- ASCII digit `0`..`9` -/
+def isDig (c : Char) : Bool := 48 ≤ c.toNat && c.toNat ≤ 57
+
+def digVal (c : Char) : Nat := c.toNat - 48
+
+def digChar (d : Nat) : Char := Char.ofNat (48 + d)
+
+/-- `unicode.IsSpace` -/
+def isSpace (c : Char) : Bool :=
+  (9 ≤ c.toNat && c.toNat ≤ 13) || c.toNat == 0x20 || c.toNat == 0x85 || c.toNat == 0xA0 ||
+  c.toNat == 0x1680 || (0x2000 ≤ c.toNat && c.toNat ≤ 0x200A) || c.toNat == 0x2028 ||
+  c.toNat == 0x2029 || c.toNat == 0x202F || c.toNat == 0x205F || c.toNat == 0x3000
+
+/-! ### strings / big.Int helpers -/
+
+/-- `strings.TrimSpace` (= `TrimRightFunc(TrimLeftFunc(s, IsSpace), IsSpace)`) -/
+def trimSpace (l : Text) : Text :=
+  ((l.dropWhile isSpace).reverse.dropWhile isSpace).reverse
+
+/-- `strings.Split(l, string(sep))` -/
+def splitOn (sep : Char) : Text → List Text
+  | [] => [[]]
+  | c :: cs =>
+    if c = sep then [] :: splitOn sep cs
+    else (c :: (splitOn sep cs).headD []) :: (splitOn sep cs).tail
+
+/-- value of a digit string, most significant digit first -/
+def ofDigits (l : Text) : Nat := l.foldl (fun a c => 10 * a + digVal c) 0
+
+/-- `big.nat.utoa(10)` -/
+def natDigits (n : Nat) : Text :=
+  if n < 10 then [digChar n] else natDigits (n / 10) ++ [digChar (n % 10)]
+termination_by n
+decreasing_by omega
+
+/-- `new(big.Int).SetString(l, 10)`; `none` = `ok == false` -/
+def bigIntSetString (l : Text) : Option Int :=
+  match l with
+  | [] => none
+  | c :: r =>
+    if c = '-' then
+      (if r ≠ [] ∧ r.all isDig then some (-(ofDigits r : Int)) else none)
+    else if c = '+' then
+      (if r ≠ [] ∧ r.all isDig then some (ofDigits r : Int) else none)
+    else
+      (if (c :: r).all isDig then some (ofDigits (c :: r) : Int) else none)
+
+def zeroPad (w : Nat) (l : Text) : Text := List.replicate (w - l.length) '0' ++ l
+
+def trimLeft0 (l : Text) : Text := l.dropWhile (· == '0')
+
+def trimRight0 (l : Text) : Text := (l.reverse.dropWhile (· == '0')).reverse
+
+def orZero (l : Text) : Text := if l = [] then ['0'] else l
+
+/-! ### the Decimal functions -/
+
+/-- `Decimal.sanity` with the five checks in source order -/
+inductive SanityErr | precisionTooHigh | precisionTooLow | scaleTooHigh | scaleTooLow | scaleBiggerThanPrecision
+  deriving DecidableEq, Repr
+
+def sanity (p s : Int) : Option SanityErr :=
+  if p > 38 then some .precisionTooHigh
+  else if p < 0 then some .precisionTooLow
+  else if s > 38 then some .scaleTooHigh
+  else if s < 0 then some .scaleTooLow
+  else if s > p then some .scaleBiggerThanPrecision
+  else none
+
+/-- `NewDecimal` succeeds -/
+def newOk (p s : Int) : Bool := (sanity p s).isNone
+
+/-- `Decimal.String` for Precision `p`, Scale `s` and unscaled value `i`; `none` = run-time panic
+(slice bound `p - s` negative).  For `s ≤ p` all slice bounds are within `0..len`. -/
+def format (p s : Nat) (i : Int) : Option Text :=
+  let ds := zeroPad p (natDigits i.natAbs)
+  let neg : Text := if i < 0 then ['-'] else []
+  if s > p then none
+  else
+    let right := orZero (trimRight0 (ds.drop (p - s)))
+    let left := orZero (trimLeft0 (ds.take (p - s)))
+    some (neg ++ left ++ '.' :: right)
+
+inductive Res | ok (i : Int) | err
+  deriving DecidableEq, Repr
+
+/-- the part of `SetString` after the split -/
+def setParts (p s : Nat) (left right : Text) : Res :=
+  if right.any (fun c => !isDig c) then .err
+  else if right.length > s then .err
+  else
+    match bigIntSetString (left ++ right) with
+    | none => .err
+    | some i =>
+      let i' := i * (10 : Int) ^ (s - right.length)
+      if i'.natAbs ≥ 10 ^ p then .err else .ok i'
+
+/-- `Decimal.SetString` for Precision `p`, Scale `s`: the new unscaled value or an error
+(`dec` untouched). -/
+def setString (p s : Nat) (str : Text) : Res :=
+  match splitOn '.' (trimSpace str) with
+  | [left] => setParts p s left []
+  | [left, right] => setParts p s left right
+  | _ => .err          -- more than one decimal point (`Split` never returns zero pieces)
+
+/-- `Decimal.Cmp` -/
+def cmp (p1 s1 : Nat) (i1 : Int) (p2 s2 : Nat) (i2 : Int) : Bool :=
+  p1 == p2 && s1 == s2 && i1 == i2
+
+/-! ### line protocol -/
+
+/-- strict integer syntax of the protocol: optional `-`, digits -/
+def readInt (s : String) : Option Int :=
+  match s.toList with
+  | '-' :: r => if r ≠ [] ∧ r.all isDig then some (-(ofDigits r : Int)) else none
+  | r => if r ≠ [] ∧ r.all isDig then some (ofDigits r : Int) else none
+
+def textOfHex (h : String) : Option Text :=
+  match fromHex h with
+  | none => none
+  | some bs =>
+    match String.fromUTF8? (ByteArray.mk bs.toArray) with
+    | none => none
+    | some s => some s.toList
+
+def hexOfText (t : Text) : String := toHex (String.ofList t).toUTF8.data.toList
+
+def showRes : Res → String
+  | .ok i => s!"ok {i}"
+  | .err => "err"
+
+def run (args : List String) : String :=
+  match args with
+  | ["new", p, s] =>
+    match readInt p, readInt s with
+    | some p, some s => if newOk p s then "ok" else "err"
+    | _, _ => "bad-op"
+  | ["fmt", p, s, i] =>
+    match readInt p, readInt s, readInt i with
+    | some p, some s, some i =>
+      if !newOk p s then "err-new"
+      else match format p.toNat s.toNat i with
+        | some t => "ok " ++ hexOfText t
+        | none => "panic"
+    | _, _, _ => "bad-op"
+  | ["fmtraw", p, s, i] =>
+    match readInt p, readInt s, readInt i with
+    | some p, some s, some i =>
+      if p < 0 ∨ s < 0 then "bad-op"
+      else match format p.toNat s.toNat i with
+        | some t => "ok " ++ hexOfText t
+        | none => "panic"
+    | _, _, _ => "bad-op"
+  | ["parse", p, s, h] =>
+    match readInt p, readInt s, textOfHex h with
+    | some p, some s, some t =>
+      if !newOk p s then "err-new" else showRes (setString p.toNat s.toNat t)
+    | _, _, _ => "bad-op"
+  | ["rt", p, s, i] =>
+    match readInt p, readInt s, readInt i with
+    | some p, some s, some i =>
+      if !newOk p s then "err-new"
+      else match format p.toNat s.toNat i with
+        | none => "panic"
+        | some t =>
+          match setString p.toNat s.toNat t with
+          | .err => "err"
+          | .ok j => (if cmp p.toNat s.toNat i p.toNat s.toNat j then "ok " else "ne ") ++ toString j
+    | _, _, _ => "bad-op"
+  | _ => "bad-op"
 
 end Dblib.Decimal
